@@ -39,6 +39,16 @@ THEOREMS = [
     "C13.not_C13_frame_full",
     "C13.not_C13_slot_param_to_attr",
     "C13.not_C13_frame_docstring",
+    "C13.multi_every_pair_applied",
+    "C13.multi_each_pair_is_one_slot",
+    "C13.multi_frame_chain",
+    "C13.multi_no_alias_assignment",
+    "C13.multi_frame_top_level",
+    "C13.multi_built_parameter_has_no_location",
+    "C13.multi_two_params_one_function",
+    "C13.multi_same_output_twice_raises",
+    "C13.not_C13_multi_wrap_once",
+    "C13.not_C13_multi_original_slots",
 ]
 TMP_ROOT = "/tmp/build/c13/run_%d" % os.getpid()  # per run (set before the workers fork); outside /repo and /verif
 _TMP = [None]
@@ -865,7 +875,8 @@ def run(chk: core.Check) -> int:
         "not modelled: CPython ast.parse/ast.unparse, black.format_str (applied to the model's module as the shared canonicaliser), exec of the input module under --input-eval "
         "(the evaluated value is passed to the model), str.format beyond `{output_param}` fields, _location attributes of nodes inside expressions/docstrings "
         "(cases where the real annotated tree has such a node equal to the search path are detected on the real tree and left to the oracle alone)",
-        "repeated --input-param/--output-param pairs in one call (stale _location attributes between rewrites) are outside the model",
+        "repeated --input-param/--output-param pairs in one call: second model lean/CddVerif/Model/SyncPropertiesMulti.lean (trees with STORED _location/_idx, identity of input nodes "
+        "for the aliasing of `replacement_node.annotation = …`), tied by c13.sync_multi on 2-4 pairs per call and, on every single-pair case, against the single-pair model",
     ]
     if os.path.isdir(TMP_ROOT):
         shutil.rmtree(TMP_ROOT, ignore_errors=True)
@@ -1268,11 +1279,14 @@ def multi_causes(case, res, specs):
                     if (c["own_name"] in ("self", "cls")) != (sp["exp"][0][0] in ("self", "cls")):
                         if any(c2.get("fnpath") == c["fnpath"] for k in range(j + 1, len(specs)) for c2 in specs[k]["out_cands"]):
                             causes.append({"cause": "stale-idx-after-first-parameter-renamed"})
-    names = []
+    names, keys = [], []
     for c in causes:
+        key = (c["cause"], c.get("found"), c.get("why"))
+        if key not in keys:
+            keys.append(key)
         if c["cause"] not in names:
             names.append(c["cause"])
-    if len(names) > 1:
+    if len(keys) > 1:
         return {"cause": "several-known-causes", "causes": "+".join(names)}
     return causes[0] if causes else {}
 
@@ -1307,9 +1321,9 @@ def oracle_multi(case, res):
                                          {(ln, 0): getattr(fn.args, ln).arg for ln in ("vararg", "kwarg") if getattr(fn.args, ln)})
                 if sp["exp"][0][0] is not None:
                     names[(c["list"], c["j"])] = sp["exp"][0][0]
-    for names in final.values():
-        if len(set(names.values())) < len(names):
-            return ("skipped:rename-collision" if not fails else "failed"), fails
+                # the pairs are applied in order: no pair may leave a signature with two parameters of one name
+                if len(set(names.values())) < len(names):
+                    return ("skipped:rename-collision" if not fails else "failed"), fails
     cause = multi_causes(case, res, specs)
     region = {"in_kind": "+".join(sorted({sp["facts"]["in_kind"] for sp in specs})), "out_kind": "+".join(sorted({sp["out_kind"] for sp in specs}))}
     label = ", ".join("%s → %s" % (a, b) for a, b in zip(case["ips"], case["ops"]))
